@@ -160,3 +160,84 @@ func identOf(e ast.Expr) *ast.Ident {
 	id, _ := ast.Unparen(e).(*ast.Ident)
 	return id
 }
+
+// runSamplerPairFuncs: the package-level adapters of a sampler/density pair
+// (SampleDest / DestDensity built on SampleSource / SourceDensity of an
+// interface): in both adapters the argument bound to a parameter of the SAME
+// NAME of the methods they delegate to is the same expression - the density
+// has to be evaluated for the very direction the sampler was conditioned on.
+func (c *Ctx) runSamplerPairFuncs(rule string, pkgs []*packages.Package) {
+	for _, p := range pkgs {
+		if p == nil {
+			continue
+		}
+		info := p.TypesInfo
+		funcs := map[string]*ast.FuncDecl{}
+		for _, file := range p.Syntax {
+			for _, d := range file.Decls {
+				if fd, ok := d.(*ast.FuncDecl); ok && fd.Recv == nil && fd.Body != nil {
+					funcs[fd.Name.Name] = fd
+				}
+			}
+		}
+		// argument expression per (delegate pair member, parameter name)
+		bound := func(fd *ast.FuncDecl, method string) map[string]string {
+			res := map[string]string{}
+			ast.Inspect(fd.Body, func(n ast.Node) bool {
+				call, ok := n.(*ast.CallExpr)
+				if !ok {
+					return true
+				}
+				fn, ok := typeutil.Callee(info, call).(*types.Func)
+				if !ok || fn.Name() != method {
+					return true
+				}
+				sig := fn.Type().(*types.Signature)
+				if sig.Recv() == nil {
+					return true
+				}
+				if _, isI := sig.Recv().Type().Underlying().(*types.Interface); !isI {
+					return true
+				}
+				for i, a := range call.Args {
+					if i < sig.Params().Len() {
+						res[sig.Params().At(i).Name()] = types.ExprString(a)
+					}
+				}
+				return true
+			})
+			return res
+		}
+		for _, pair := range samplerPairs {
+			fs, fdn := funcs[pair[0]], funcs[pair[1]]
+			if fs == nil || fdn == nil {
+				continue
+			}
+			for _, inner := range samplerPairs {
+				if inner == pair {
+					continue
+				}
+				a, b := bound(fs, inner[0]), bound(fdn, inner[1])
+				if len(a) == 0 || len(b) == 0 {
+					continue
+				}
+				var names []string
+				for n := range a {
+					if _, ok := b[n]; ok && n != "" && n != "_" {
+						names = append(names, n)
+					}
+				}
+				sort.Strings(names)
+				for _, n := range names {
+					key := p.Types.Name() + "." + pair[0] + "/" + pair[1] + " via " + inner[0] + "/" + inner[1] + " parameter " + n
+					c.analysed(p.Types.Name() + "." + pair[0])
+					if a[n] == b[n] {
+						c.ok(rule, key, fs.Pos(), "both adapters pass "+a[n])
+					} else {
+						c.bad(rule, key, fdn.Pos(), "the sampler adapter passes "+a[n]+" for the delegate's parameter "+n+" but the density adapter passes "+b[n]+": the reported density is not the density of the distribution that is sampled")
+					}
+				}
+			}
+		}
+	}
+}
